@@ -10,6 +10,9 @@ conditions under which it is applied); none of them deletes or reorders an effec
   N-FOREACH   it.for_each(|P| B);                       ->  for P in it { B }                  (B has no `return`)
   N-MAP       for P in it.map(|Q| e) { B }              ->  for Q in it { let P = e; B }       (e has no `return` / `?`)
   N-FILTER    for P in it.filter(|Q| c) { B }           ->  for P+Q in it { if c { B } }       (patterns merged position by position; c has no `return` / `?`)
+  N-REFALIAS  let r = &mut a.b;  .. *r ..               ->  .. a.b ..                          (r immutable, a not re-assigned)
+  N-TUPLELET  let (a, b) = (e1, e2);                    ->  let a = e1; let b = e2;
+  N-LETITER   let X = it.adaptor(..); for P in X { B }  ->  for P in it.adaptor(..) { B }      (X has no other use)
   N-COLLECT   let X = it.map(|Q| { S; Ok(v) }).collect::<Result<Vec<_>>>()?;
                                                         ->  let mut X = Vec::new(); for Q in it { S; X.push(v); }
               let X = it.map(|Q| e).collect::<Vec<_>>();->  let mut X = Vec::new(); for Q in it { X.push(e); }
@@ -99,6 +102,8 @@ def _merge_pats(p, q):
     if q0.get("k") == "wild":
         return p0, []
     if p0.get("k") == "wild":
+        if q0.get("k") == "bind" and (q0.get("t") or "").startswith("&"):
+            q0 = dict(q0, t=q0["t"][1:].lstrip())      # the filter closure binds `&component`; in the loop pattern it is the component
         return q0, []
     if p0.get("k") == "bind" and q0.get("k") == "bind" and "sub" not in p0 and "sub" not in q0:
         return p0, [(q0, p0)]
@@ -172,6 +177,72 @@ class Normaliser:
         src = list(b.get("stmts", ()))
         tail = b.get("tail")
         changed = False
+        # N-REFALIAS: let r = &mut a.b.c;  .. *r ..   ->   .. a.b.c ..      (r immutable binding, the place is a field path of a local)
+        j = 0
+        while j < len(src):
+            st = src[j]
+            if st.get("k") == "let" and "init" in st and "els" not in st and st["pat"].get("k") == "bind" and "sub" not in st["pat"] and \
+                    "Mut" not in st["pat"].get("mode", "").split(",")[-1] and st["init"].get("k") == "ref":
+                pl = st["init"]["e"]
+                x_ = pl
+                while x_.get("k") == "field":
+                    x_ = x_["e"]
+                if pl.get("k") == "field" and x_.get("k") == "path" and x_.get("r") == "local":
+                    h = st["pat"]["hid"]
+                    root_h = x_["hid"]
+                    rest = src[j + 1:] + ([tail] if tail is not None else [])
+                    reassigned = any(y.get("k") == "assign" and ir.local_hid(y["l"]) == root_h and y["l"].get("k") == "path" for z in rest for y in ir.walk_nodes(z))
+
+                    def sub_ref(n):
+                        if isinstance(n, list):
+                            return [sub_ref(x) for x in n]
+                        if not isinstance(n, dict):
+                            return n
+                        if n.get("k") == "un" and n.get("op") == "*" and n["e"].get("k") == "path" and n["e"].get("r") == "local" and n["e"].get("hid") == h:
+                            return pl
+                        if n.get("k") == "path" and n.get("r") == "local" and n.get("hid") == h:
+                            return st["init"]
+                        return {k_: (sub_ref(v) if isinstance(v, (dict, list)) and k_ not in ("pat", "params", "s", "ps", "caps") else v) for k_, v in n.items()}
+                    if not reassigned:
+                        new_rest = sub_ref(rest)
+                        if tail is not None:
+                            tail = new_rest[-1]
+                            new_rest = new_rest[:-1]
+                        src[j:] = new_rest
+                        self.hit("N-REFALIAS")
+                        changed = True
+                        continue
+            j += 1
+        # N-TUPLELET: let (a, b) = (e1, e2);   ->   let a = e1; let b = e2;      (component patterns are plain bindings / `_`; same evaluation order)
+        j = 0
+        while j < len(src):
+            st = src[j]
+            if st.get("k") == "let" and "init" in st and "els" not in st and st["pat"].get("k") == "tuple" and ir.unparen(st["init"]).get("k") == "tup":
+                ps, es = st["pat"].get("ps", ()), ir.unparen(st["init"]).get("es", ())
+                if len(ps) == len(es) and all(p_.get("k") in ("bind", "wild") and "sub" not in p_ for p_ in ps) and "rest" not in st["pat"]:
+                    src[j:j + 1] = [{"k": "let", "s": st.get("s"), "pat": p_, "init": e_, "gen": True} for p_, e_ in zip(ps, es)]
+                    self.hit("N-TUPLELET")
+                    changed = True
+                    j += len(ps)
+                    continue
+            j += 1
+        # N-LETITER: let X = <iterator chain>; for P in X { .. }   ->   for P in <iterator chain> { .. }     (X not used elsewhere)
+        j = 0
+        while j + 1 < len(src):
+            st, nx = src[j], src[j + 1]
+            fx = nx["e"] if nx.get("k") == "semi" else nx
+            if st.get("k") == "let" and "init" in st and "els" not in st and st["pat"].get("k") == "bind" and fx.get("k") == "for" and \
+                    ir.local_hid(fx["iter"]) == st["pat"]["hid"] and fx["iter"].get("k") == "path" and \
+                    ir.unparen(st["init"]).get("k") == "mcall" and (ir.unparen(st["init"]).get("q") or "").split("::")[-2:-1] == ["Iterator"]:
+                h = st["pat"]["hid"]
+                uses = sum(1 for z in src[j + 1:] + ([tail] if tail is not None else []) for y in ir.walk_nodes(z) if y.get("k") == "path" and y.get("r") == "local" and y.get("hid") == h)
+                if uses == 1:
+                    nf = self.for_loop(dict(fx, iter=st["init"]))
+                    src[j:j + 2] = [dict(nx, e=nf) if nx.get("k") == "semi" else nf]
+                    self.hit("N-LETITER")
+                    changed = True
+                    continue
+            j += 1
         for st in src:
             x = st["e"] if st.get("k") == "semi" else st
             # it.for_each(|P| B);
@@ -392,6 +463,18 @@ class Normaliser:
                 cond = c["body"]
                 if cond.get("k") == "block" and not cond.get("stmts") and cond.get("tail") is not None:
                     cond = cond["tail"]
+                # the filter closure sees `&item`: `*index` there is `index` of the loop pattern
+                fh = {x["hid"] for x in ir.pat_binds(c["params"][0])}
+
+                def unstar(n):
+                    if isinstance(n, list):
+                        return [unstar(x) for x in n]
+                    if not isinstance(n, dict):
+                        return n
+                    if n.get("k") == "un" and n.get("op") == "*" and n["e"].get("k") == "path" and n["e"].get("r") == "local" and n["e"].get("hid") in fh:
+                        return dict(n["e"], t=n.get("t"))
+                    return {k_: (unstar(v) if isinstance(v, (dict, list)) and k_ not in ("pat", "params", "s", "ps", "caps") else v) for k_, v in n.items()}
+                cond = unstar(cond)
                 iff = {"k": "if", "s": c.get("s"), "t": "()", "c": cond, "then": _blk(f["body"]), "gen": True}
                 body = {"k": "block", "s": f["body"].get("s"), "stmts": lets + [_as_stmt(iff)], "gen": True}
                 f["pat"], f["iter"], f["body"] = pat, it["recv"], body
@@ -612,7 +695,7 @@ class Inliner:
         self.by_q, self.nz, self.k = by_q, nz, 0
         self.inlined = set()
 
-    def eligible(self, caller, cb):
+    def eligible(self, caller, cb, resolved=False):
         if cb is None or cb is caller or cb.get("q") == caller.get("q") or not cb.get("dk", "").startswith(("Fn", "AssocFn")):
             return False
         if cb.get("crate") != caller.get("crate") and cb.get("crate") is not None and caller.get("crate") is not None:
@@ -624,7 +707,7 @@ class Inliner:
             return q.rsplit("::", 1)[0]
         cm, km = mod(cb["q"]), mod(caller["q"])
         near = same_adt or cm == km or cm.startswith(km + "::") or km.startswith(cm + "::") or cm.rsplit("::", 1)[0] == km.rsplit("::", 1)[0]
-        if not near or cb.get("trait_item"):
+        if not near or (cb.get("trait_item") and not resolved):
             return False
         parts = _user_parts(cb)
         if parts is None or "impl " in (cb.get("out_t") or "") or "Iterator" in (cb.get("out_t") or ""):
@@ -632,18 +715,20 @@ class Inliner:
         n_nodes = sum(1 for _ in ir.walk_nodes(parts[1]))
         return n_nodes <= 400
 
-    def expand(self, caller, call, form, try_node=None):
+    def expand(self, caller, call, form, try_node=None, caller_ret=None):
         """form: 'plain' | 'try'.  Returns the replacement expression or None"""
         q = call.get("rvq") or call.get("q")
         cands = self.by_q.get(q) or ()
         cb = cands[0] if len(cands) == 1 else None
-        if cb is None or not self.eligible(caller, cb):
+        if cb is None or not self.eligible(caller, cb, resolved=bool(call.get("rvq")) or call.get("k") == "call"):
             return None
         prelude, user, is_async = _user_parts(cb)
         has_try = _has(user, ("try",))
         rets = _rets(user)
         if form == "plain" and (has_try or rets):
             return None
+        if form == "tail" and (cb.get("out_t") != (caller_ret or caller.get("out_t")) or is_async):
+            return None        # the call is the caller's result: `return` / `?` inside the helper leave the caller the same way
         # under `helper(..)?` with identical error types, `return Err(e)` inside the helper is `return Err(e)` of the caller
         if form == "try" and not all(r.get("e") is not None and ir.unparen(r["e"]).get("k") == "call" and (ir.unparen(r["e"]).get("q") or "") == ERRQ for r in rets):
             return None
@@ -855,7 +940,7 @@ def normalise_body(b, nz=None):
     return nb
 
 
-def normalise_program(crates, guard=True):
+def normalise_program(crates, guard=True, inline=True):
     """(crates', {rewrite: count}) with every body rewritten; untouched bodies are shared, not copied"""
     nz = Normaliser(guard)
     out = {}
@@ -871,7 +956,27 @@ def normalise_program(crates, guard=True):
         nb = []
         for b in d["bodies"]:
             before = nz.applied.get("N-CALL", 0)
-            body2 = inl.rw(b, b["body"])
+            body2 = inl.rw(b, b["body"]) if inline else b["body"]
+            if inline and body2.get("k") == "block" and body2.get("tail") is not None and ir.unparen(body2["tail"]).get("k") in ("call", "mcall") and b.get("dk", "").startswith(("Fn", "AssocFn")):
+                r_ = inl.expand(b, ir.unparen(body2["tail"]), "tail")
+                if r_ is not None:
+                    body2 = dict(body2, tail=r_)
+            if inline:
+                # async_trait method: the user's block is the initialiser of `let __ret: T = { .. }`
+                def tail_in_ret(n):
+                    if isinstance(n, list):
+                        return [tail_in_ret(x) for x in n]
+                    if not isinstance(n, dict):
+                        return n
+                    if n.get("k") == "let" and n.get("pat", {}).get("name") == "__ret" and n.get("init", {}).get("k") == "block" and n["init"].get("tail") is not None and \
+                            ir.unparen(n["init"]["tail"]).get("k") in ("call", "mcall"):
+                        r2 = inl.expand(b, ir.unparen(n["init"]["tail"]), "tail", caller_ret=n["pat"].get("t"))
+                        if r2 is not None:
+                            return dict(n, init=dict(n["init"], tail=r2))
+                        return n
+                    return {k_: (tail_in_ret(v) if isinstance(v, (dict, list)) and k_ not in ("pat", "params", "s", "ps", "caps") else v) for k_, v in n.items()}
+                if any(n.get("k") == "let" and n.get("pat", {}).get("name") == "__ret" for n in ir.walk_nodes(body2)):
+                    body2 = tail_in_ret(body2)
             if nz.applied.get("N-CALL", 0) != before:
                 b = dict(b, body=body2, _normalised=True)
             nb.append(normalise_body(b, nz))
